@@ -65,9 +65,18 @@ define flow answer from variable
 """
 
 
-def v1_world(in_order=(), out_order=(), dialog=False, exceptions=False, extra_yaml="", extra_colang=""):
+def v1_world(in_order=(), out_order=(), dialog=False, exceptions=False, extra_yaml="", extra_colang="", param_rails=False):
     # only configured rails are defined: an unconfigured `define flow x` would be an ordinary dialog flow
-    colang = "".join(v1_rail(r, "input") for r in in_order) + "".join(v1_rail(r, "output") for r in out_order)
+    prails = ()
+    if param_rails:
+        # ONE rail flow configured several times with different parameters: the library's
+        # `content safety check input $model=<m>` (the only parameterised rail names the config validation accepts);
+        # its action is replaced by a stub that is called with rail=<m> (allow / reject only)
+        prails = tuple(in_order)
+        colang = "".join(v1_rail(r, "output") for r in out_order)
+        in_order = tuple(f"content safety check input $model={r}" for r in in_order)
+    else:
+        colang = "".join(v1_rail(r, "input") for r in in_order) + "".join(v1_rail(r, "output") for r in out_order)
     if dialog:
         colang += V1_DIALOG
     colang += extra_colang
@@ -81,7 +90,14 @@ def v1_world(in_order=(), out_order=(), dialog=False, exceptions=False, extra_ya
     if exceptions:
         yaml += "enable_rails_exceptions: True\n"
     yaml += extra_yaml
-    return World(colang, yaml)
+    w = World(colang, yaml)
+    if prails:
+        async def content_safety_check_input(context=None):
+            ok = w._rail_sync((context or {}).get("model"), (context or {}).get("user_message"))
+            return {"allowed": ok is not False, "policy_violations": []}
+
+        w.rails.register_action(content_safety_check_input, name="content_safety_check_input")
+    return w
 
 
 def digest(s):
